@@ -165,3 +165,19 @@ package langserver
 //@   props C02
 //@   at call DelFileContent#0 before assert[close-drops-the-cached-text-of-that-document] streq(arg1, strFile)
 //@ end
+
+// ---- C14: the first-character pre-filter of completion candidates ----
+// candidates are pre-filtered by "contains one of two characters"; so that every name that STARTS with the typed prefix
+// passes, the typed first character itself is one of the two (the other is its other-case form)
+//@ func getComplelteStruct
+//@   props C14
+//@   ensures[the-typed-first-character-itself-passes-the-filter] flag && completeVar.FilterCharacterFlag ==> len(completeVar.StrVec) == 1 && len(completeVar.StrVec[0]) >= 1
+//@        && (completeVar.FilterOneChar == completeVar.StrVec[0][0] || completeVar.FilterTwoChar == completeVar.StrVec[0][0])
+//@ end
+
+// C08 (second sentence) / C02: the live analysis of an edited buffer is made from the buffer's text - nil would make
+// the analysis read the file from disk instead (analysisFirstLuaFile: "content == nil: no text given")
+//@ func (*LspServer).TextDocumentDidChange
+//@   props C02 C08
+//@   at call HandleFileChangeAnalysis#0 before assert[live-analysis-gets-the-buffer-text-itself] arg2 != nil && streq(arg1, strFile)
+//@ end
